@@ -412,6 +412,23 @@ def run(prop, tier, seed):
                 sid = "%s-%s-free%d" % (prop, cname, j)
                 scenarios.append(free_scenario(behs[j:j + 2], sid, conc))
                 meta[sid] = None
+        if prop == "C15":
+            # ACCOUNTS ARRIVING WHILE BATCHES RUN: four accounts created at run time (they live in the fetcher's run-time tables), then
+            # twelve sequential clients send generic batches BY PUBLIC KEY over rotated and reversed selections of the two start-up and
+            # the four run-time accounts while a stream of further accounts keeps being created through the process service
+            for ai in range(2 if tier == "quick" else 10):
+                pops = []
+                for lane in range(1, 13):
+                    for j in range(10):
+                        ks = [(lane + j + x) % 6 for x in range(2 + (lane + j) % 3)]
+                        if (lane + j) % 2:
+                            ks.reverse()
+                        pops.append(dict(id="a%dl%dj%d" % (ai, lane, j), kind="multi", dom="randao", by=("key", "key", "name")[(lane + j) % 3], lane=lane,
+                                         ents=[dict(k=k_, root="R%d" % (j % 5)) for k_ in ks]))
+                sid = "%s-%s-arrivals%d" % (prop, concs[0][0], ai)
+                scenarios.append(dict(id=sid, world=dict(nkeys=2), conc=concs[0][1], no_export=True,
+                                      ops=[dict(id="mk", kind="create", n=4), dict(id="par", kind="par", gate=False, arrivals=True, ops=pops)]))
+                meta[sid] = None
         all_events, deadlocks, stuck = drive(scenarios, wd)
         # the SHIPPED PROGRAM under real concurrency: the free-running groups are also sent to the real dirk binary, every request
         # from its own goroutine over TLS; the final database is read through badger
